@@ -247,6 +247,89 @@ def prebuild(res, notes):
     raise runner.Inconclusive("send-sync probe failed to build for another reason:\n" + text[-800:])
 
 
+def _miri_worker(args):
+    """One Miri process: a reduced concurrent + sequential workload over pre-parsed ASTs."""
+    import runner
+    cases, scratch, mseed, harness, tdir = args
+    env = runner.cargo_env()
+    env["MIRIFLAGS"] = "-Zmiri-disable-isolation -Zmiri-seed=%d" % mseed
+    env["CELMON_STACK_MB"] = "16"
+    wrapper = ["cargo", "+nightly", "miri", "run", "--offline", "--target-dir", tdir, "--"]
+    drv = runner.Driver(None, scratch, env=env, wrapper=wrapper, cwd=harness)
+    res = runner.UnitResult()
+    try:
+        out = drv.run(cases, "miri", watchdog=1500)
+    except runner.Inconclusive as e:
+        res.inconclusive.append("miri: " + str(e)[:300])
+        return res
+    cross = {}
+    for c, r in zip(cases, out):
+        if c["op"] == "conc":
+            check_conc(res, c, r)
+        else:
+            check_history(res, c, r, cross)
+    res.inconclusive.extend(drv.inconclusive)
+    return res
+
+
+def extra_stages(tier, seed, scratch, total, notes):
+    """Thorough tier: the concurrent workload under ThreadSanitizer, and a reduced workload under Miri
+    (several scheduler seeds as parallel processes; programs handed over as pre-parsed ASTs)."""
+    if tier != 'thorough':
+        return
+    import runner
+    from concurrent.futures import ProcessPoolExecutor
+    # --- ThreadSanitizer
+    try:
+        binary, env, note = runner.build_variant('tsan')
+        sub = [('conc', 1000 + i) for i in range(12)] + [('history', 1000 + i) for i in range(2)]
+        t = runner.run_units_with(__name__, sub, binary, os.path.join(scratch, "tsan"), seed + 2000, 'quick', env=env, jobs=4)
+        notes.append({"stage": "tsan", "build": note, "units": len(sub), "executions": t.evaluations,
+                      "threads_seen": sorted(t.observed.get("threads", [])), "max_overlap_seen": sorted(t.observed.get("max_overlap", [])),
+                      "sanitizer_reports": sum(1 for v in t.violations if 'Sanitizer' in v["sig"][2]),
+                      "statement": "no ThreadSanitizer report on these executions"})
+        t.observed = {"tsan:" + k: v for k, v in t.observed.items()}
+        total.merge(t)
+    except runner.Inconclusive as e:
+        notes.append({"stage": "tsan", "result": "inconclusive (toolchain): " + str(e)[:300]})
+    # --- Miri
+    try:
+        runner._alt_repo()
+        native = runner.Driver(runner.build_driver("mon"), os.path.join(scratch, "miri-prep"))
+        rng = rng_for(seed, 'C05', 'miri')
+        srcs = ["x + [tid, k]", "mine + x", "x.map(e, e + tid)", "t(tid, x) + t(k, mine)", "s + s", "x + x", "[x, x]", "{'k': x, 'j': s}",
+                "x.filter(e, e > k)", "1 / 0", "x.map(e, e / 0)", "xs + [s]", "l2.map(r, r + x)", "x == x", "size(x + mine)"]
+        parsed = native.run([{"id": i, "op": "parse", "src": s_} for i, s_ in enumerate(srcs)], "parse")
+        asts = [p["ast"] for p in parsed if isinstance(p, dict) and "ast" in p]
+        if len(asts) != len(srcs):
+            raise runner.Inconclusive("could not pre-parse the Miri programs")
+        jobs = []
+        tdir = runner.TARGET + "-miri"
+        for m in range(8):
+            ctx = make_ctx(rng)
+            cases = [{"id": 0, "op": "conc", "vars": [[n, to_json(v)] for n, v in ctx], "progs": srcs, "asts": asts,
+                      "threads": 2 + (m % 2), "ops": 6, "seed": rng.getrandbits(32) | 1, "perturb": True},
+                     {"id": 1, "op": "history", "vars": [[n, to_json(v)] for n, v in ctx], "progs": srcs[4:], "asts": asts[4:],
+                      "seq": [rng.randrange(len(srcs) - 4) for _ in range(8)], "opts": {"hold": m % 2 == 0}}]
+            jobs.append((cases, os.path.join(scratch, "miri%d" % m), 1 + m, runner.HARNESS, tdir))
+        t0 = time.time()
+        # first process alone (builds the Miri sysroot / crate), then the rest in parallel
+        first = _miri_worker(jobs[0])
+        results = [first]
+        with ProcessPoolExecutor(max_workers=7) as ex:
+            results += list(ex.map(_miri_worker, jobs[1:]))
+        mt = runner.UnitResult()
+        for r in results:
+            mt.merge(r)
+        notes.append({"stage": "miri", "processes": len(jobs), "scheduler_seeds": [j[2] for j in jobs], "executions": mt.evaluations,
+                      "wall_s": round(time.time() - t0, 1), "reports": len(mt.violations), "inconclusive": mt.inconclusive[:3],
+                      "statement": "no undefined behaviour or data race reported by Miri on these executions"})
+        mt.observed = {"miri:" + k: v for k, v in mt.observed.items()}
+        total.merge(mt)
+    except runner.Inconclusive as e:
+        notes.append({"stage": "miri", "result": "inconclusive (toolchain): " + str(e)[:300]})
+
+
 def recheck(cases, out, res):
     cross = {}
     for c, r in zip(cases, out):
